@@ -102,8 +102,13 @@ def big_graphs(ctx, medium=False):
     return out
 
 
+LABELS = (1, "a", "", 0, 0.5, 0.0, "b", 1.0)
+
+
 def as_tl(g):
-    return [[(1, v) for v in row] for row in g]
+    # the first component of a transition is an action label or a probability; the search must look at the target
+    # only, so every kind of legal first component is used, the falsy ones ("" , 0, 0.0) included
+    return [[(LABELS[(i * 7 + k * 3 + v) % len(LABELS)], v) for k, v in enumerate(row)] for i, row in enumerate(g)]
 
 
 def run(ctx):
